@@ -29,6 +29,7 @@ type EvalCtx struct {
 	noLocals bool
 	onlyParams bool
 	fnForTypes *ssa.Function
+	siteLoop *Loop // innermost loop around a site assertion (for $k only)
 }
 
 func (f *Frame) evalCtx(st *State, l *Loop) *EvalCtx {
@@ -657,6 +658,14 @@ func (e *Engine) evalIdent(ctx *EvalCtx, name string) (Val, error) {
 			return v, nil
 		}
 	}
+	if name == "$k" && ctx.loop == nil && ctx.siteLoop != nil && ctx.f != nil {
+		for _, in := range ctx.siteLoop.Header.Instrs {
+			if p, ok := in.(*ssa.Phi); ok && p.Comment == "rangeindex" {
+				return Val{S: "(+ " + ctx.f.vals[p].S + " 1)", Sort: "Int", T: types.Typ[types.Int]}, nil
+			}
+		}
+		return Val{}, fmt.Errorf("$k is only available in range-index loops")
+	}
 	if name == "$k" && ctx.loop != nil {
 		if ctx.f != nil {
 			for _, in := range ctx.loop.Header.Instrs {
@@ -730,11 +739,19 @@ func (f *Frame) lookupName(ctx *EvalCtx, name string) (Val, bool) {
 			}
 		}
 	}
-	for _, p := range f.fn.Params {
-		if p.Name() == name {
-			if v, ok := f.vals[p]; ok {
-				return v, true
+	paramVal := func() (Val, bool) {
+		for _, p := range f.fn.Params {
+			if p.Name() == name {
+				if v, ok := f.vals[p]; ok {
+					return v, true
+				}
 			}
+		}
+		return Val{}, false
+	}
+	if ctx.onlyParams || ctx.at == nil {
+		if v, ok := paramVal(); ok {
+			return v, true
 		}
 	}
 	for i, fv := range f.fn.FreeVars {
@@ -831,6 +848,11 @@ func (f *Frame) lookupName(ctx *EvalCtx, name string) (Val, bool) {
 			return f.vals[bestPhi], true
 		}
 	}
+	if best == nil {
+		if v, ok := paramVal(); ok {
+			return v, true
+		}
+	}
 	if best != nil {
 		v := f.val(best.X)
 		if best.IsAddr {
@@ -842,6 +864,9 @@ func (f *Frame) lookupName(ctx *EvalCtx, name string) (Val, bool) {
 				return Val{T: t, S: e.load(ctx.st, l)}, true
 			}
 		}
+		return v, true
+	}
+	if v, ok := paramVal(); ok {
 		return v, true
 	}
 	return Val{}, false
@@ -881,6 +906,17 @@ func (e *Engine) evalSelect(ctx *EvalCtx, a Val, name string) (Val, error) {
 			return Val{}, fmt.Errorf("%s is not a struct", cur.T)
 		}
 		cur = Val{T: stt.Field(i).Type(), S: e.fieldSel(cur.T, stt, i, cur.S)}
+	}
+	// values read from the heap in a specification carry the same typing facts as values loaded by the code
+	if !hasBound(cur.S) {
+		switch cur.T.Underlying().(type) {
+		case *types.Slice:
+			key := "specty:" + cur.S
+			if !e.sc.declared[key] && len(cur.S) < 400 {
+				e.sc.declared[key] = true
+				e.assume("true", e.typingFact(cur.T, cur.S, ""))
+			}
+		}
 	}
 	return cur, nil
 }
@@ -1422,6 +1458,16 @@ func (e *Engine) evalCall(ctx *EvalCtx, x *Expr) (Val, error) {
 			return r, nil
 		}
 		return Val{}, fmt.Errorf("store(array ghost, index, value)")
+	case "disjoint":
+		// the two slices live in different backing arrays (or one of them is nil)
+		vs, err := args()
+		if err != nil {
+			return Val{}, err
+		}
+		if len(vs) == 2 {
+			return boolVal(fmt.Sprintf("(or (not (= (s.arr %s) (s.arr %s))) (= (s.arr %s) 0))", vs[0].S, vs[1].S, vs[0].S)), nil
+		}
+		return Val{}, fmt.Errorf("disjoint(a, b)")
 	case "samearray":
 		vs, err := args()
 		if err != nil {
